@@ -226,6 +226,7 @@ pub fn check(case: &Case, obs: &mut Obs) -> Result<(), Fail> {
         let mut obs_labels: Vec<&'static str> = Vec::new();
         let (mut n_long_fault, mut n_reconnect) = (0, 0);
         let mut disconnected_pairs: Vec<(usize, usize)> = Vec::new();
+        let mut kept_handles: BTreeMap<(usize, usize), Vec<anemo::Peer>> = BTreeMap::new();
         for (step, op) in case.ops.iter().enumerate() {
             let what = format!("step {step} {op:?}");
             match op {
@@ -239,6 +240,11 @@ pub fn check(case: &Case, obs: &mut Obs) -> Result<(), Fail> {
                         let _ = within(15_000, net.connect_with_peer_id(addr, ids[t])).await;
                     } else {
                         let _ = within(15_000, net.connect(addr)).await;
+                    }
+                    // the application keeps a Peer handle from every dial (as a typed client would)
+                    if let Some(h) = net.peer(ids[t]) {
+                        let v = kept_handles.entry((f, t)).or_insert_with(Vec::new);
+                        if v.len() < 4 { v.push(h); }
                     }
                 }
                 Op::Disconnect { at, peer } => {
@@ -267,6 +273,13 @@ pub fn check(case: &Case, obs: &mut Obs) -> Result<(), Fail> {
                         if !net.peers().contains(&ids[p]) {
                             if let Ok(Ok(_)) = within(2_000, net.rpc(ids[p], ctl_request("/after-disconnect", &[], &ctl, 30))).await {
                                 vensure!(net.peers().contains(&ids[p]), "c09:rpc-after-disconnect", "{what}: an RPC to the disconnected peer succeeded although no new connection was established");
+                            }
+                            // ... also through Peer handles the application kept from earlier dials (connections
+                            // that were replaced in the meantime included)
+                            for (k, mut h) in kept_handles.remove(&(a, p)).unwrap_or_default().into_iter().enumerate() {
+                                if let Ok(Ok(_)) = within(2_000, h.rpc(ctl_request("/after-disconnect", &[], &ctl, 30))).await {
+                                    vensure!(net.peers().contains(&ids[p]), "c09:rpc-after-disconnect", "{what}: an RPC through Peer handle number {k} kept from an earlier dial succeeded after the disconnect although no new connection was established");
+                                }
                             }
                         }
                     }
